@@ -63,6 +63,9 @@ fn connect_phase(rep: &mut Rep) {
                     p.push(Prop::byte(0x2a, 0));
                     p.insert(0, Prop::u16(0x21, 5));
                     p.push(Prop::u16(0x22, 0));
+                    // ... and ends with a user property whose value is empty
+                    p.push(Prop::pair("last", ""));
+                    up.push(("last".to_string(), String::new()));
                     if reason >= 0x80 {
                         p.insert(2, Prop::byte(0x29, 0));
                         rep.add("refusing_connacks_with_subscription_identifiers_unavailable", 1);
